@@ -21,26 +21,40 @@ CONSTANTS MaxDefs, Enabled, Shard, NShards
 Kinds == {"function", "async", "method", "nested", "class"}
 \* "odd_defaults": default values whose TEXT is hostile to textual header rewriting (runs of spaces, a '#', brackets, a colon)
 Sigs == {"plain", "defaults", "annotated", "varargs", "kwonly", "multiline", "multiline_comment", "decorated", "odd_defaults"}
-Docs == {"none", "rest", "google", "numpydoc"}
-Bodies == {"block", "oneline"}
+\* "types_only": a ReST docstring that holds nothing but `:type` / `:rtype:` lines; "blank": `""" """` -- docstrings that re-emit as EMPTY
+\* under some configurations (then the docstring statement is deleted)
+Docs == {"none", "rest", "google", "numpydoc", "types_only", "blank"}
+\* "doconly": the definition's body is nothing but its docstring (a stub / interface method)
+Bodies == {"block", "oneline", "doconly"}
 Styles == <<"rest", "google", "numpydoc">>
 Defs == {d \in [kind : Kinds, sig : Sigs, doc : Docs, body : Bodies] :
-           /\ (d.kind = "class" => d.sig \in {"plain", "decorated"} /\ d.body = "block")
-           /\ (d.body = "oneline" => d.doc = "none" /\ d.sig \in {"plain", "defaults"})}
+           /\ (d.kind = "class" => d.sig \in {"plain", "decorated"} /\ d.body = "block" /\ d.doc \notin {"types_only", "blank"})
+           /\ (d.body = "oneline" => d.doc = "none" /\ d.sig \in {"plain", "defaults"})
+           /\ (d.body = "doconly" => d.doc # "none" /\ d.sig \in {"plain", "defaults", "annotated"})
+           /\ (d.doc \in {"types_only", "blank"} => d.sig \in {"plain", "defaults", "annotated"})}
 Programs == {<<d>> : d \in Defs} \cup (IF MaxDefs >= 2 THEN {<<d, e>> : d \in {x \in Defs : x.body = "oneline" \/ x.sig \in {"plain", "multiline_comment"}},
-                                                                          e \in {x \in Defs : x.sig \in {"annotated", "decorated", "varargs", "odd_defaults"}}}
+                                                                          e \in {x \in Defs : x.sig \in {"annotated", "decorated", "varargs", "odd_defaults"}
+                                                                                               /\ x.body # "doconly" /\ x.doc \notin {"types_only", "blank"}}}
                                        ELSE {})
 Cfgs == [style : {"rest", "google", "numpydoc"}, annotations : BOOLEAN]
 
 \* what Transform may change of a definition: its docstring style and where the types live
-Transformed(d, cfg) == [d EXCEPT !.doc = IF d.doc = "none" /\ d.kind = "class" THEN "none" ELSE cfg.style]
+\* (a docstring that re-emits as empty is deleted: "gone"; erasure does not see the difference)
+Transformed(d, cfg) == [d EXCEPT !.doc = IF d.doc = "none" /\ d.kind = "class" THEN "none"
+                                        ELSE IF d.doc \in {"types_only", "blank"} THEN "gone_or_" \o cfg.style ELSE cfg.style]
+\* a definition whose ONLY statement is a docstring that may re-emit as empty: the pipeline may give up at the replace step
+\* (as built it does, with an IndexError, before anything is written) -- allowed by the statement, the file stays as it was
+MayGiveUp(p) == \E k \in 1..Len(p) : (p[k].body = "doconly" /\ p[k].doc \in {"types_only", "blank"}) \/ p[k].doc = "blank"
 Erase(d) == [kind |-> d.kind, sig |-> d.sig, body |-> d.body]           \* docstrings and annotations erased
 
 on(x) == x \in Enabled
 \* named deviations: which definitions the as-built pipeline damages
 Corrupts(p) == on("doctrans_oneline_def_corrupted") /\ \E k \in 1..Len(p) : p[k].body = "oneline"
 LosesComment(p) == on("doctrans_header_comment_lost") /\ \E k \in 1..Len(p) : p[k].sig = "multiline_comment"
+\* an async definition's docstring is DELETED whenever the file is rewritten; when it was the only statement the header is left without a body
+AsyncStub(p) == on("doctrans_async_stub_loses_its_body") /\ \E k \in 1..Len(p) : p[k].kind = "async" /\ p[k].body = "doconly"
 Fired(p) == (IF Corrupts(p) THEN {"doctrans_oneline_def_corrupted"} ELSE {})
+            \cup (IF AsyncStub(p) THEN {"doctrans_async_stub_loses_its_body"} ELSE {})
             \cup (IF LosesComment(p) THEN {"doctrans_header_comment_lost"} ELSE {})
 
 Steps == <<"read", "ast", "transform", "compare", "cst", "replace", "write">>
@@ -58,7 +72,8 @@ Step == /\ ~failed /\ failat # pc /\ pc <= 7
            ELSE pc' = pc + 1
         /\ IF Steps[pc] = "write" THEN disk' = "new" /\ writes' = writes + 1 ELSE UNCHANGED <<disk, writes>>
         /\ UNCHANGED <<prog, cfg, failed, failat>>
-Next == Fail \/ Step
+GiveUp == pc = 6 /\ ~failed /\ failat = 0 /\ MayGiveUp(prog) /\ failed' = TRUE /\ UNCHANGED <<prog, cfg, pc, mem, disk, writes, failat>>
+Next == Fail \/ Step \/ GiveUp
 Spec == Init /\ [][Next]_vars
 
 SameProgram == \A k \in 1..Len(mem) : Erase(mem[k]) = Erase(prog[k])
